@@ -257,7 +257,24 @@ def _c03_engine_twin(self, bt, plan):
     xa = a.root.prices.to_numpy(dtype=float)
     xb = b.root.prices.to_numpy(dtype=float)
     res["nontrivial"] = bool((np.abs(xa - 100.0) > 1e-9).any())
-    bad = np.abs(xa - xb) > 1e-7 * (np.abs(xa) + 1)
+    # the sizing search stops within an absolute 1e-8 of the amount: on a book of 1 every position is off by ~1e-7 of itself,
+    # and the index by that times the leverage (gross holdings / equity) of the strategy that holds it - a levered long/short
+    # sub-strategy amplifies it; the band follows the largest leverage reached in the run
+    lev = 1.0
+    for n in a.root.members:
+        if hasattr(n, "capital") and n.children:
+            gross = sum(np.abs(c.values.to_numpy(dtype=float)) for c in n.children.values())
+            eq = np.abs(n.values.to_numpy(dtype=float))
+            held = gross > 0
+            if held.any():
+                if (eq[held] <= 0).any():
+                    lev = float("inf")
+                else:
+                    lev = max(lev, float((gross[held] / eq[held]).max()))
+    if not lev < 1e3:
+        res["info"]["inconclusive_twin_near_zero_equity"] = 1
+        return res
+    bad = np.abs(xa - xb) > 1e-7 * lev * (np.abs(xa) + 1)
     if bad.any():
         i = int(np.argmax(bad))
         res["viol"].append({"check": "scale_invariance", "detail": "real Backtest, fractional positions, size-proportional costs: capital %r gives index[%d]=%r, capital %r gives %r" % (plan["cfg"]["capital"], i, xa[i], plan["engine_scale_twin"], xb[i]), "flags": {"engine": True}})
